@@ -270,15 +270,17 @@ func emitDirList(r *Runner, t *Trace, when string) {
 	// disappearing.  A file that lingers for good is still reported.
 	ssts, blobs := list()
 	live := physFiles(r.DB)
-	for i := 0; i < 400 && len(ssts) != len(live); i++ {
+	for i := 0; i < envInt("VERIF_DIRWAIT", 400) && len(ssts) != len(live); i++ {
 		time.Sleep(5 * time.Millisecond)
 		r.DB.TestOnlyWaitForCleaning()
 		ssts, blobs = list()
 		live = physFiles(r.DB)
 	}
 	m := r.DB.Metrics()
+	// pending: tables Pebble itself still counts as obsolete-not-yet-deleted.  "Deletions have been
+	// processed" (the property's precondition) is observable only as pending == 0.
 	t.Emit(Ev{"op": "dirlist", "when": when, "ssts": ssts, "live": live, "blobs": blobs,
-		"liveblobs": int(m.BlobFiles.Live.Total().Count)})
+		"liveblobs": int(m.BlobFiles.Live.Total().Count), "pending": int(m.Table.Physical.Obsolete.Total().Count)})
 }
 
 // TestLSM: VERIF_OUT, VERIF_SEED, VERIF_SCRIPTS, VERIF_STEPS, VERIF_CONFIGS
@@ -295,6 +297,9 @@ func TestLSM(t *testing.T) {
 	cfgs := Configs()
 	total := 0
 	for i := 0; i < scripts; i++ {
+		if only := envInt("VERIF_ONLY", -1); only >= 0 && i != only {
+			continue
+		}
 		cn := cfgNames[i%len(cfgNames)]
 		cfg := cfgs[cn]
 		cfg.MaintEvery = 0
